@@ -120,6 +120,7 @@ func FactsFor(fn *ssa.Function) *FuncFacts {
 	// pass 2: what a predicate call's outcome implies
 	for _, t := range todo {
 		imp := impliedByPredicate(t.f, 0)
+		imp = append(imp, impliedByNilError(t.f)...)
 		if len(imp) == 0 {
 			continue
 		}
@@ -315,6 +316,96 @@ func impliedByPredicate(f Fact, depth int) []Fact {
 	for i, pr := range g.Params {
 		if i < len(args) {
 			sub[pr] = TermOf(args[i])
+		}
+	}
+	var out []Fact
+	for _, x := range common {
+		out = append(out, Fact{Op: x.Op, L: SubstTerm(x.L, sub), R: SubstTerm(x.R, sub)})
+	}
+	sort.Slice(out, func(i, j int) bool { return out[i].String() < out[j].String() })
+	return out
+}
+
+// impliedByNilError: for a fact `g(...)#k == nil` where g is a repository function and the k-th
+// result is an error, the facts that hold on every return of g whose error can be nil, plus
+// "that error value is nil" for a returned non-constant error (a helper that hands on the error of
+// the step it wraps: its nil result means the step's nil result).
+func impliedByNilError(f Fact) []Fact {
+	if f.Op != "==" || f.R == nil || f.R.Op != "const" || f.R.Name != "nil" || f.L == nil || f.L.Call == nil {
+		return nil
+	}
+	k := 0
+	switch f.L.Op {
+	case "call":
+	case "extract":
+		k = f.L.Idx
+	default:
+		return nil
+	}
+	g := f.L.Call.Call.StaticCallee()
+	if g == nil || g.Blocks == nil || g.Pkg == nil || !strings.HasPrefix(g.Pkg.Pkg.Path(), ModPath) {
+		return nil
+	}
+	res := g.Signature.Results()
+	if k >= res.Len() || !strings.HasSuffix(res.At(k).Type().String(), "error") {
+		return nil
+	}
+	var common map[string]Fact
+	gf := FactsFor(g)
+	for _, b := range g.Blocks {
+		if b == g.Recover {
+			continue
+		}
+		for _, in := range b.Instrs {
+			ret, ok := in.(*ssa.Return)
+			if !ok || len(ret.Results) <= k {
+				continue
+			}
+			for _, lf := range Leaves(Forwarded(ret.Results[k]), ret.Block()) {
+				set := map[string]Fact{}
+				add := func(x Fact) { x.If, x.Succ = nil, 0; set[x.String()] = x }
+				all := append(append([]Fact{}, gf.At(ret.Block())...), lf.Facts...)
+				if kc, isC := lf.V.(*ssa.Const); isC {
+					if !kc.IsNil() {
+						continue
+					}
+				} else {
+					vt := TermOf(lf.V)
+					nonNil := false
+					for _, x := range all {
+						if x.Op == "!=" && x.R != nil && x.R.Op == "const" && x.R.Name == "nil" && x.L != nil {
+							if x.L.String() == vt.String() || (x.L.Op == "call" && strings.HasSuffix(x.L.Name, "IgnoreNotFound") && len(x.L.Args) == 1 && x.L.Args[0].String() == vt.String()) {
+								nonNil = true
+							}
+						}
+					}
+					if nonNil {
+						continue
+					}
+					add(Fact{Op: "==", L: vt, R: &Term{Op: "const", Name: "nil"}})
+				}
+				for _, x := range all {
+					add(x)
+				}
+				if common == nil {
+					common = set
+					continue
+				}
+				for key := range common {
+					if _, ok := set[key]; !ok {
+						delete(common, key)
+					}
+				}
+			}
+		}
+	}
+	if len(common) == 0 {
+		return nil
+	}
+	sub := map[ssa.Value]*Term{}
+	for i, pr := range g.Params {
+		if i < len(f.L.Call.Call.Args) {
+			sub[pr] = TermOf(f.L.Call.Call.Args[i])
 		}
 	}
 	var out []Fact
@@ -1305,7 +1396,47 @@ func MustDo(pred func(ssa.Instruction) bool) func(ssa.Instruction) bool {
 			return false
 		}
 		busy[f] = true
-		reach, _ := CanReach(Entry(f), IsReturn, ReachOpts{CutInstr: func(x ssa.Instruction) bool { return instr(x, depth) }})
+		// only the helper's successful returns count: when it fails, its caller fails with it
+		target := func(x ssa.Instruction) bool {
+			ret, ok := x.(*ssa.Return)
+			if !ok || ret.Block() == f.Recover {
+				return false
+			}
+			if n := len(ret.Results); n > 0 && strings.HasSuffix(ret.Results[n-1].Type().String(), "error") {
+				for _, lf := range Leaves(ret.Results[n-1], ret.Block()) {
+					if k, isC := lf.V.(*ssa.Const); isC && k.IsNil() {
+						return true
+					}
+					if _, isC := lf.V.(*ssa.Const); !isC {
+						// an error that the path has found non-nil (err != nil, or IgnoreNotFound(err) != nil) is a failure
+						vt := TermOf(lf.V).String()
+						knownNonNil := false
+						for _, fct := range append(append([]Fact{}, FactsAtInstr(ret)...), lf.Facts...) {
+							if fct.Op == "!=" && fct.R != nil && fct.R.Op == "const" && fct.R.Name == "nil" && fct.L != nil {
+								if fct.L.String() == vt {
+									knownNonNil = true
+								}
+								if fct.L.Op == "call" && strings.HasSuffix(fct.L.Name, "IgnoreNotFound") && len(fct.L.Args) == 1 && fct.L.Args[0].String() == vt {
+									knownNonNil = true
+								}
+							}
+						}
+						if knownNonNil {
+							continue
+						}
+						// a non-constant error (e.g. the result of the step itself) may be nil
+						if ci, isCall := Forwarded(lf.V).(*ssa.Call); !isCall || !instr(ci, depth) {
+							if ex, isEx := Forwarded(lf.V).(*ssa.Extract); !isEx || !func() bool { c2, ok := ex.Tuple.(*ssa.Call); return ok && instr(c2, depth) }() {
+								return true
+							}
+						}
+					}
+				}
+				return false
+			}
+			return true
+		}
+		reach, _ := CanReach(Entry(f), target, ReachOpts{CutInstr: func(x ssa.Instruction) bool { return instr(x, depth) }})
 		busy[f] = false
 		memo[f] = !reach
 		return !reach
